@@ -255,7 +255,11 @@ func vsoProbe(c vsoCase, out *vsoOut, followBound time.Duration) error {
 		fu["follow"] = "hang"
 		closeBound = short // wedged: the remaining waits give no further verdict
 	}
-	pb := 2 * time.Second
+	// PrintActiveStreams walks the whole slice (seconds for 2^28 counters under load); only "never" is a failure
+	pb := 3 * time.Second
+	if c.Big {
+		pb = 40 * time.Second
+	}
 	if fw == "hang" {
 		pb = short
 	}
@@ -273,13 +277,6 @@ func vsoProbe(c vsoCase, out *vsoOut, followBound time.Duration) error {
 		_, fu["after"] = vsoPrinter(obs, pb)
 	}
 	out.emit(fu)
-	// drop the counter slice: handlers wedged on the leaked lock keep the observer (and up to 1 GB of counters) reachable
-	// for the rest of the process.  Nothing of this rig is looked at after this point.
-	locked := obs.streamGrowLock.TryLock()
-	obs.streamActive = nil
-	if locked {
-		obs.streamGrowLock.Unlock()
-	}
 	return nil
 }
 
